@@ -308,7 +308,7 @@ def special_case(builder, n_classes, n_views, subsets=False):
 
 def cases(tier, seed):
     cs = []
-    n_views = 2 if tier == "quick" else 3
+    n_views = 2  # (3 derived views per diagram: every K=2 case ran into its budget - measured)
     cs.append(Case("generic base chain (5 classes, every order)", special_case(build_generic_chain, 5, 1), validate=0, timeout=900))
     cs.append(Case("several direct bases incl. an ancestor; field types left out of the diagram (every subset of 6 classes, 2 orders)", special_case(build_zoo, 6, 1, subsets=True), key="zoo", validate=0, timeout=900))
     cs.append(Case("same class name in two modules (4 classes, every order)", special_case(build_same_name_in_two_modules, 4, 1), validate=0, timeout=900))
@@ -325,7 +325,7 @@ def cases(tier, seed):
         for b1, b2 in [(0, 0), (1, 0), (1, 1), (1, 2)]:
             for k0 in refs:
                 nm = "K=3|bases=%d,%d|f0:%s" % (b1 - 1, b2 - 1, k0)
-                cs.append(Case(nm, case(3, [k0], [], {"base1": b1, "base2": b2}, 2), key=nm, validate=0, timeout=3000, max_paths=1000000))
+                cs.append(Case(nm, case(3, [k0], [], {"base1": b1, "base2": b2}, 2 if (b1, b2) == (0, 0) else 1), key=nm, validate=0, timeout=3000, max_paths=1000000))
     return cs
 
 
@@ -337,7 +337,7 @@ def describe(tier):
         "of every field are compared with an independent typing.get_type_hints analysis; then a bounded symbolic sequence of read-only operations (both sub-diagram "
         "derivations, associations, inheritance_relations, parent_map, get_out_edges, association keys, all_ancestors) with a full snapshot (nodes, edges, fields) "
         "before/after. distinct = distinct (specification, order, view sequence); non-trivial = every path builds a diagram",
-        bounds=dict(classes="<= 2 quick / 3 thorough", fields_per_class="<= 2", view_operations="<= 2 quick / 3 thorough"),
+        bounds=dict(classes="<= 2 quick / 3 thorough", fields_per_class="<= 2", view_operations="<= 2 (1 for three classes with inheritance among them)"),
         outside=["rendering (_build_rxnode_tree fails with the installed rustworkx_utils; the two rendering tests of the repository fail at baseline)", "annotations outside the listed grammar (other unions, nested containers)"],
         assumptions=["solver role: specifications and view sequences are finite symbolic choices explored exhaustively (no symbolic data)"],
         explanation="bounded exhaustive exploration of model specifications driven by the symx engine",
